@@ -7,6 +7,7 @@ import build, obs, gen, mutate, frame, procmon, its, alpide, rdh as R
 from common import pmap, scratch, rng_for, save_replay, write_file, REPO
 
 LEVEL = "exploration"
+HANG_INSPECTIONS = [0]
 PANIC = re.compile(r"panicked at ([^\n:]+):\d+:\d+:\n([^\n]*)")
 
 
@@ -190,7 +191,7 @@ def one_case(args):
     argv = ([] if pipe else [path]) + ([] if mode == ["WRITER"] else mode) + opts
     N = int(opts[opts.index("-E") + 1]) if "-E" in opts else None
     env = {"RUST_BACKTRACE": "1", "ASAN_OPTIONS": "halt_on_error=1:detect_leaks=0:abort_on_error=1"}
-    r = obs.run(exe, argv, stdin_path=path if pipe else None, workdir=wd, timeout=90 if isinstance(exe, str) else 600, env=env, tag="c%d" % case, allow_timeout=True)
+    r = obs.run(exe, argv, stdin_path=path if pipe else None, workdir=wd, timeout=40 if isinstance(exe, str) else 600, env=env, tag="c%d" % case, allow_timeout=True)
     if not isinstance(exe, str) and r.rc == 99:      # valgrind --error-exitcode
         d = save_replay("C04", "case%d" % case, {"input.raw": data, "stderr.txt": r.stderr}, dict(seed=seed, case=case, argv=argv, pipe=pipe, source=src))
         out["viol"] = ("memcheck:" + (re.search(r"== (Invalid \w+|Conditional jump|Use of uninitialised|Syscall param[^\n]*)", r.stderr) or [None, "error"])[1][:40],
@@ -200,12 +201,22 @@ def one_case(args):
     out["key"] = (src.split(":")[0], " ".join(mode), tuple(sorted(o for o in opts if o.startswith("-") and not o[1:].isdigit())))
     what = sig = None
     if r.timeout:
-        # decide hang vs slow with the logical criterion
-        o = procmon.run((list(exe) if not isinstance(exe, str) else [exe]) + argv, cwd=wd, stdin_data=data if pipe else None, env=dict(os.environ, TMPDIR=wd), watchdog=60, hard=300)
-        if o.hung:
-            what, sig = "hang: no progress (all threads asleep, no CPU time consumed)", "hang:%s" % " ".join(mode)
-        elif o.inconclusive:
-            out["inconclusive"] = "%s: %s" % (out["sample"], o.inconclusive)
+        # the wall-clock watchdog only triggers the inspection; the verdict uses logical criteria: (a) deadlock = alive, all threads asleep, no CPU
+        # time consumed; (b) no termination = CPU time far beyond a bound proportional to the input size (normal runs need milliseconds)
+        HANG_INSPECTIONS[0] += 1
+        if HANG_INSPECTIONS[0] > 6:
+            out["inconclusive"] = "%s: watchdog fired (further inspections skipped after 6)" % out["sample"]
+        else:
+            bound = 20.0 + len(data) / 20000.0
+            o = procmon.run((list(exe) if not isinstance(exe, str) else [exe]) + argv, cwd=wd, stdin_data=data if pipe else None, env=dict(os.environ, TMPDIR=wd),
+                            watchdog=30, hard=600, cpu_limit=bound)
+            if o.hung:
+                what, sig = "hang: no progress (all threads asleep, no CPU time consumed)", "hang:%s" % " ".join(mode)
+            elif o.cpu_exceeded:
+                what = "no termination: %.0f s of CPU time consumed on a %d byte input (bound %.0f s), still running" % (o.cpu_exceeded, len(data), bound)
+                sig = "no-termination:%s" % " ".join(mode)
+            elif o.inconclusive:
+                out["inconclusive"] = "%s: %s" % (out["sample"], o.inconclusive)
     elif r.sig is not None:
         sig = signature(r.stderr) or "signal:%d" % r.sig
         what = "killed by signal %d (%s)" % (r.sig, sig)
